@@ -479,7 +479,7 @@ CHECKS = {
             RS('xrep'), RS('xrespondent'),
             T('MC_RepLike', 'Rep_quick.cfg'),
             T('MC_RepLike', 'Respondent_quick.cfg'),
-            T('MC_RepLike', 'Rep_plain.cfg', tiers=('thorough',)),
+            T('MC_RepLike', 'Rep_plain.cfg', tiers=('thorough',)), T('MC_RepLike', 'Rep_live.cfg', workers=8, tiers=('thorough',)), T('MC_RepLike', 'Respondent_live.cfg', workers=8, tiers=('thorough',)),
             T('MC_RepLike', 'Respondent_plain.cfg', tiers=('thorough',)), T('MC_RepLike', 'Respondent_resize.cfg', tiers=('thorough',)),
             C('rep', 'TestRep', 'TraceRep', n={'quick': 100, 'thorough': 1200}),
             C('respondent', 'TestRespondent', 'TraceRespondent', n={'quick': 100, 'thorough': 1200}),
